@@ -29,6 +29,7 @@ from deepproto.proto.resource.v1.resource_pb2 import Resource
 # noinspection PyUnresolvedReferences
 from deepproto.proto.tracepoint.v1.tracepoint_pb2 import MetricType
 
+from deep import logging
 from .grpc_service import GRPCService  # noqa: F401
 from ..api.tracepoint.tracepoint_config import LabelExpression, MetricDefinition
 from ..api.tracepoint.trigger import build_trigger, Trigger
@@ -121,8 +122,13 @@ def convert_response(response) -> List[Trigger]:
     all_triggers: Dict[str, Trigger] = {}
     for r in response:
         # from the incoming tracepoints create a Trigger with actions
-        trigger = build_trigger(r.ID, r.path, r.line_number, dict(r.args), [w for w in r.watches],
-                                __convert_metric_definition(r.metrics))
+        try:
+            trigger = build_trigger(r.ID, r.path, r.line_number, dict(r.args), [w for w in r.watches],
+                                    __convert_metric_definition(r.metrics))
+        except Exception:
+            # e.g. a metric type this version does not know: skip this tracepoint and keep the others
+            logging.exception("Cannot convert tracepoint %s", r.ID)
+            continue
         if trigger is None:
             # we cannot interpret this tracepoint, so skip it and keep the others
             continue
